@@ -151,13 +151,47 @@ func init() {
 			}
 			c.Check(okRaw, "enc-value", c.P.Pos(enc.Pos()), "chunk value = A, or A‖pad‖B", "chunk value is not A (alone, unpadded) or A‖pad‖B")
 			// decoder
-			calls := callsIn(dec, build)
-			c.Check(len(calls) == 2, "dec-two-params", c.P.Pos(dec.Pos()), "two buildParam sites (A, optional B)", fmt.Sprintf("%d buildParam sites", len(calls)))
+			// parameter-parse sites: calls to buildParam, or to a wrapper that forwards its byte-slice parameter to buildParam
+			type psite struct {
+				call ssa.CallInstruction
+				raw  ssa.Value
+			}
+			var sites []psite
+			forEachInstr(dec, func(in ssa.Instruction) {
+				ci, ok := in.(ssa.CallInstruction)
+				if !ok {
+					return
+				}
+				sc := ci.Common().StaticCallee()
+				if sc == nil {
+					return
+				}
+				if sc == build {
+					sites = append(sites, psite{ci, ci.Common().Args[1]})
+					return
+				}
+				if c.P.inPkg(sc) && sc.Blocks != nil {
+					for _, inner := range callsIn(sc, build) {
+						for pi, p := range sc.Params {
+							if unconv(inner.Common().Args[1]) == ssa.Value(p) && pi < len(ci.Common().Args) {
+								sites = append(sites, psite{ci, ci.Common().Args[pi]})
+							}
+						}
+					}
+				}
+			})
+			var calls []ssa.CallInstruction
+			rawOf := map[ssa.CallInstruction]ssa.Value{}
+			for _, ps := range sites {
+				calls = append(calls, ps.call)
+				rawOf[ps.call] = ps.raw
+			}
+			c.Check(len(calls) == 2, "dec-two-params", c.P.Pos(dec.Pos()), "two parameter-parse sites (A, optional B)", fmt.Sprintf("%d parameter-parse sites", len(calls)))
 			for _, a := range c.storesIn(dec, pA) {
 				ex, ok := a.Val.(*ssa.Extract)
 				okA := ok && len(calls) == 2 && ex.Tuple == calls[0].(ssa.Value)
 				if okA {
-					_, sliced := callArg(calls[0], 1).(*ssa.Slice)
+					_, sliced := rawOf[calls[0]].(*ssa.Slice)
 					okA = !sliced
 				}
 				c.Check(okA, "dec-A-is-first", c.Pos(a.Instr), "paramA = parameter parsed at offset 0", "paramA is not the parameter parsed at the start of the chunk value")
@@ -166,7 +200,7 @@ func init() {
 				ex, ok := a.Val.(*ssa.Extract)
 				okB := false
 				if ok && len(calls) == 2 && ex.Tuple == calls[1].(ssa.Value) {
-					if sl, ok := callArg(calls[1], 1).(*ssa.Slice); ok && sl.Low != nil {
+					if sl, ok := rawOf[calls[1]].(*ssa.Slice); ok && sl.Low != nil {
 						if sum, ok := unconv(sl.Low).(*ssa.BinOp); ok && sum.Op == token.ADD {
 							isLenA := func(v ssa.Value) bool {
 								call, ok := v.(*ssa.Call)
